@@ -245,6 +245,7 @@ func c11Neighbourhood(chk *fw.Check) (evals, nontrivial int, samples []string) {
 		world.Issue(p.Root, world.CertOpt{CN: "reordered", RawSubject: world.RawDN("CN", "verif issuing CA", "O", "verif"), IsCA: true, KeyKind: "ec", KeyIdx: 6, Serial: big.NewInt(76)}),
 		world.Issue(p.Root, world.CertOpt{CN: "repeated-cn", RawSubject: world.RawDN("O", "verif", "CN", "backup", "CN", "verif issuing CA"), IsCA: true, KeyKind: "ec", KeyIdx: 6, Serial: big.NewInt(77)}),
 	}
+	_ = others
 	two64 := new(big.Int).Lsh(big.NewInt(1), 64)
 	listed := []*big.Int{big.NewInt(5), big.NewInt(57), big.NewInt(300), new(big.Int).Add(two64, big.NewInt(5)), new(big.Int).Lsh(big.NewInt(0x7f), 152), big.NewInt(7)}
 	isListed := func(s *big.Int) bool {
@@ -343,6 +344,41 @@ func c11Neighbourhood(chk *fw.Check) (evals, nontrivial int, samples []string) {
 	return
 }
 
+// c11Teletex: two issuers whose names are TeletexStrings differing in one octet which is not valid UTF-8 (Latin-1
+// "M\xfcller" / "M\xf6ller"): still two different issuers.
+func c11Teletex(chk *fw.Check) (evals int) {
+	p := world.Std()
+	caU := world.Issue(p.Root, world.CertOpt{CN: "t61-u", RawSubject: world.RawDNT61("O", "verif", "CN", "M\xfcller CA"), IsCA: true, KeyKind: "ec", KeyIdx: 6, Serial: big.NewInt(78)})
+	caO := world.Issue(p.Root, world.CertOpt{CN: "t61-o", RawSubject: world.RawDNT61("O", "verif", "CN", "M\xf6ller CA"), IsCA: true, KeyKind: "ec", KeyIdx: 7, Serial: big.NewInt(79)})
+	const urlT = "http://crl.test/teletex.crl"
+	for _, disk := range []bool{false, true} {
+		seqWorld(func() {
+			w := NewCW(CWOpt{Disk: disk, SigMode: config.SignatureValidationModeVerify})
+			defer os.RemoveAll(w.Dir)
+			if err := w.Provision(); err != nil {
+				panic(err)
+			}
+			vsched.Drain()
+			w.Net.Serve(urlT, "listU", world.SimpleCRL(caU, 1, 5).DER())
+			listed := world.Issue(caU, world.CertOpt{CN: "c11 t61 listed", Serial: big.NewInt(5), KeyKind: "ec", KeyIdx: 5, CDP: []string{urlT}})
+			if v := w.Lookup(listed, world.Chain(listed, caU, p.Root)); v.String() != "REVOKED" {
+				// outside the premise: this CRL did not come into force (as of this writing the stores cannot serialise
+				// an issuer name which is not valid UTF-8, so such a CRL is never loaded and cannot revoke anything)
+				return
+			}
+			other := world.Issue(caO, world.CertOpt{CN: "c11 t61 other", Serial: big.NewInt(5), KeyKind: "ec", KeyIdx: 5})
+			v := w.Lookup(other, world.Chain(other, caO, p.Root))
+			evals++
+			if v.Revoked {
+				chk.Violation("C11|revoked-not-listed|other-issuer-teletex-name|"+be(disk),
+					fmt.Sprintf("issuer %q (TeletexString, octets % x) serial 5 reported revoked; the only CRL in force is issued by %q (octets % x): the two names differ in an octet which is not valid UTF-8 and are rendered alike", caO.Cert.Subject.CommonName, caO.Cert.Subject.CommonName, caU.Cert.Subject.CommonName, caU.Cert.Subject.CommonName), nil)
+			}
+			w.Chk.Cleanup()
+		})
+	}
+	return
+}
+
 // RunC11 is the entry point of the C11 check.
 func RunC11(tier string, args []string) int {
 	if len(args) > 0 && args[0] == "hworker" {
@@ -402,6 +438,7 @@ func RunC11(tier string, args []string) int {
 		"keys are 64-bit FNV hashes: the guarantee is up to hash collisions, which the generated cases do not hit",
 	}
 	ev, nt, samples := c11Neighbourhood(chk)
+	ev += c11Teletex(chk)
 	total := runHWorkers(chk, "C11", tier, 16)
 	cov := fw.Coverage{
 		"states":                        total.Stats.States + ev,
